@@ -168,8 +168,37 @@ def cmd_table():
     print("\n".join(out))
 
 
+def cmd_benign(i, props):
+    """run checks against a behaviour-preserving refactoring (seeded/benign/<id>): none may print a VIOLATION"""
+    d = os.path.join(SEEDED, "benign", i)
+    wt = worktree()
+    try:
+        rc, out = sh(["git", "-C", wt, "apply", os.path.join(d, "patch.diff")])
+        if rc != 0:
+            print("patch does not apply", out)
+            return
+        rcb, outb = sh("cargo build --offline 2>&1 | tail -3", cwd=wt, timeout=1800)
+        env = dict(os.environ)
+        env["VERIF_REPO"] = wt
+        mp = os.path.join(d, "meta.json")
+        m = json.load(open(mp)) if os.path.exists(mp) else {"id": i, "kind": "benign refactoring (false-alarm guard)", "builds": "Finished" in outb}
+        det = m.setdefault("checks", {})
+        for p in props:
+            t0 = time.time()
+            rc, out = sh([os.path.join(VERIF, "verify"), "check", p], cwd=VERIF, timeout=7200, env=env)
+            lines = [l for l in out.splitlines() if l.startswith(("VIOLATION", "UNDECIDED", "KNOWN-FINDING"))]
+            det[p] = {"exit": rc, "lines": lines[:12], "false_alarm": any(l.startswith("VIOLATION") for l in lines), "wall_s": round(time.time() - t0)}
+            print(i, p, "exit", rc, lines[:3])
+            json.dump(m, open(mp, "w"), indent=1)
+    finally:
+        drop(wt)
+
+
 if __name__ == "__main__":
     c = sys.argv[1]
+    if c == "benign":
+        cmd_benign(sys.argv[2], sys.argv[3:])
+        sys.exit(0)
     if c == "table":
         cmd_table()
         sys.exit(0)
